@@ -257,25 +257,34 @@ func s6a() scenario {
 }
 
 func s6b() scenario {
+	// both threads make the first use of BOTH generator tables (G2 through the signature master key, G1 through the
+	// encryption master key), in opposite order
+	gen := func(laneS, laneE byte, signFirst bool) string {
+		sign := func() string {
+			m, err := sm9.GenerateSignMasterKey(&engine.DetReader{Lane: laneS})
+			if err != nil {
+				return "err"
+			}
+			return hex.EncodeToString(m.PublicKey().Bytes())
+		}
+		enc := func() string {
+			m, err := sm9.GenerateEncryptMasterKey(&engine.DetReader{Lane: laneE})
+			if err != nil {
+				return "err"
+			}
+			return hex.EncodeToString(m.PublicKey().Bytes())
+		}
+		if signFirst {
+			return sign() + "/" + enc()
+		}
+		e := enc()
+		return sign() + "/" + e
+	}
 	return scenario{name: "S6b-sm9-singletons", resetGlobals: true, setup: func() *inst {
 		in := &inst{outs: make([]string, 2)}
 		in.threads = []func(){
-			func() {
-				m, err := sm9.GenerateSignMasterKey(&engine.DetReader{Lane: 50})
-				if err != nil {
-					in.outs[0] = "err"
-					return
-				}
-				in.outs[0] = hex.EncodeToString(m.PublicKey().Bytes())
-			},
-			func() {
-				m, err := sm9.GenerateEncryptMasterKey(&engine.DetReader{Lane: 51})
-				if err != nil {
-					in.outs[1] = "err"
-					return
-				}
-				in.outs[1] = hex.EncodeToString(m.PublicKey().Bytes())
-			},
+			func() { in.outs[0] = gen(50, 52, true) },
+			func() { in.outs[1] = gen(51, 53, false) },
 		}
 		return in
 	}}
@@ -679,5 +688,7 @@ func s16() scenario {
 }
 
 func allScenarios() []scenario {
-	return []scenario{s1(), s2(), s3(), s4(), s5(), s6a(), s6b(), s7(), s8(), s9(), s10(), s11(), s12(), s13(), s14(), s15(), s16(), s17(), s18(), s19(), s20(), s21(), s22()}
+	all := []scenario{s1(), s2(), s3(), s4(), s5(), s6a(), s6b(), s7(), s8(), s9(), s10(), s11(), s12(), s13(), s14(), s15(), s16(), s17(), s18(), s19(), s20(), s21(), s22()}
+	all = append(all, s23()...)
+	return all
 }
